@@ -9,6 +9,7 @@ numbers are atoms = indices into a table kept here) and compared with graphslam 
                 resolved offsets, warnings) and the five loaders of graphslam/load.py.
 Also the direct oracles on the implementation (used to produce replays): k-cycle round trips (C13) and an
 independent regex parser (C14)."""
+import copy
 import importlib.util
 import logging
 import math
@@ -513,6 +514,12 @@ def gen_graph(rng, flavour='any', moderate=False, dims=None):
             ct = rng.choice(['NN', 'WN', 'NR', 'WR'])
             i = rng.choice(list(eff))
             edges.append(CUSTOM[ct]([i], info(2), np.array(vals.vec(2), dtype=np.float64)))
+    if edges and rng.random() < 0.3:
+        # the same measurement recorded twice: an exact duplicate of an edge (two textually identical lines in the file) is TWO edges
+        e0 = edges[rng.randrange(len(edges))]
+        for _ in range(rng.choice([1, 1, 2])):
+            edges.insert(rng.randint(0, len(edges)), copy.deepcopy(e0))
+        vals.hist['duplicate_edges'] = vals.hist.get('duplicate_edges', 0) + 1
     if flavour == 'defect':
         # exactly one thing the format cannot express, anywhere among the edges
         def fresh_id():
@@ -883,6 +890,12 @@ def gen_file(rng, flavour='valid'):
             lines.append('EDGE_SE2 %d %d 1 2 3 1 0 0 1 0 1' % (ids[0], ids[1]))
             lines.append('EDGE_SE2_XY %d %d 1 2 1 0 1' % (ids[1], ids[0]))
         # 'order' was produced by skipping the legal reordering above
+    edge_lines = [k for k, l in enumerate(lines) if l.startswith('EDGE')]
+    if edge_lines and flavour != 'malformed' and rng.random() < 0.25:
+        # a measurement recorded twice: two textually identical EDGE lines are two edges
+        k = rng.choice(edge_lines)
+        lines.insert(k + rng.choice([1, 1, len(lines) - k]), lines[k])
+        desc['duplicate_edge_line'] = True
     if messy:
         for _ in range(rng.randint(0, 5)):
             lines.insert(rng.randint(0, len(lines)), rng.choice(JUNK if rng.random() < 0.6 else BLANK))
